@@ -213,8 +213,11 @@ def history(chk, cl, bk, rnd, n_ops, idmap, interrupt=None):
         per = {}
         token_k, token_v, pages = "", "", 0
         mx = rnd.choice([1000, 1000, 1, 2, 3])
+        dl = rnd.choice(["", "", "/"])
+        cps = set()
         while True:
             q = {"versions": "", "max-keys": str(mx)}
+            if dl: q["delimiter"] = dl
             if token_k: q["key-marker"] = token_k
             if token_v: q["version-id-marker"] = token_v
             r = cl.req("GET", "/" + bk, query=q)
@@ -226,6 +229,8 @@ def history(chk, cl, bk, rnd, n_ops, idmap, interrupt=None):
                     per.setdefault(el.findtext("Key"), []).append((vnum(el.findtext("VersionId")), False, blobs.get(e2e.etag_clean(el.findtext("ETag")), -1), el.findtext("IsLatest") == "true")); n += 1
                 elif el.tag == "DeleteMarker":
                     per.setdefault(el.findtext("Key"), []).append((vnum(el.findtext("VersionId")), True, None, el.findtext("IsLatest") == "true")); n += 1
+            for el in x.findall("CommonPrefixes"):
+                cps.add(el.findtext("Prefix"))      # (not counted against max-keys here: C09 does not speak of the page size of prefixes)
             if n > mx: viol("list-page-too-long", "a ListObjectVersions page with max-keys=%d has %d entries" % (mx, n))
             pages += 1
             if x.findtext("IsTruncated") != "true": break
@@ -237,7 +242,10 @@ def history(chk, cl, bk, rnd, n_ops, idmap, interrupt=None):
         for k, ents in per.items():
             if k in KEYS:
                 canon[KEYS.index(k)] = ([(v, b, lt) for v, m, b, lt in ents if not m], [(v, lt) for v, m, b, lt in ents if m])
-        record("ListVersions", "list-versions max-keys=%d (%d pages)" % (mx, pages), ("list", canon))
+        if dl:
+            record("ListVersions", "list-versions delimiter=/ max-keys=%d (%d pages)" % (mx, pages), ("listd", canon, tuple(sorted(cps))))
+        else:
+            record("ListVersions", "list-versions max-keys=%d (%d pages)" % (mx, pages), ("list", canon))
         chk.count("list:pages=%d" % min(pages, 3))
 
     # ---- the program
@@ -251,7 +259,7 @@ def history(chk, cl, bk, rnd, n_ops, idmap, interrupt=None):
         k = rnd.choice(KEYS[:3] if rnd.random() < 0.9 else KEYS); x = rnd.random()
         if x < 0.28: do_put(k)
         elif x < 0.33:
-            if interrupt is not None and rnd.random() < 0.5:
+            if interrupt is not None and rnd.random() < 0.5 and sh.stacks.get(k) and not sh.stacks[k][0][1]:
                 # an overwrite that dies before it is published (the gateway is killed at a hook site and restarted): nothing was
                 # acknowledged and nothing became visible, so the version history must not change; not an operation of the model
                 where = interrupt(path(k), blob(9500 + len(text)))
@@ -300,8 +308,8 @@ def run(chk):
     quick = chk.tier == "quick"
     chk.rule = ("a case is one random program (15-45 steps) on a fresh bucket: optional writes before versioning is enabled (the null version), "
                 "then put (plain / CopyObject / multipart completion / CopyObject and UploadPartCopy from a stored version of another key) / delete / delete-by-version (existing, null, foreign and unknown ids) / "
-                "get / get-and-head-by-version / list-versions (unpaged and paged with max-keys 1-3, following the markers) / enable-suspend "
-                "toggles on four keys, interleaved with refused writes and with overwrites killed before publication (gateway restarted), ending with a sweep that reads every remaining version by id; every answer of the real gateway is "
+                "get / get-and-head-by-version / list-versions (unpaged and paged with max-keys 1-3, with and without a delimiter, following the markers) / enable-suspend "
+                "toggles on four keys, interleaved with refused writes and with overwrites killed before publication (gateway restarted), ending with a sweep that reads every remaining version by id; plus a burst of 500 overwrites of one key whose listing must be the acknowledgements in reverse; every answer of the real gateway is "
                 "compared with the reference version machine (Model/Versions.v) evaluated in Coq. Non-trivial: at least one overwrite or delete "
                 "of an existing key in a versioned state; distinct by program text.")
     gwbin = gobuild.build_gateway("verif")
@@ -336,6 +344,42 @@ def run(chk):
             chk.case(("hist", tuple(ops)), sum(1 for o in ops if o.startswith(("Put", "Delete"))) >= 3)
             for d in (site.root, site.verdir):
                 shutil.rmtree(os.path.join(d, bk), ignore_errors=True); shutil.rmtree(os.path.join(d, bk + "-src"), ignore_errors=True)
+        # ---- a burst of overwrites of one key (several within one millisecond): the listing is newest first in the order the writes were
+        # acknowledged, and deleting the newest by id re-exposes the write before it
+        bk = "vburst"
+        chk.require(cl.req("PUT", "/" + bk).status == 200 and cl.req("PUT", "/" + bk, query={"versioning": ""}, body=b"<VersioningConfiguration><Status>Enabled</Status></VersioningConfiguration>").status == 200,
+                    "c09:setup", "burst bucket setup failed")
+        nburst = 500 if quick else 3000
+        acks = []
+        for i in range(nburst):
+            r = cl.req("PUT", "/%s/burst" % bk, body=b"burst-write-%06d" % i)
+            if r.status == 200: acks.append((i, r.headers.get("x-amz-version-id")))
+        listed, km, vm = [], "", ""
+        for _ in range(nburst // 100 + 5):
+            q = {"versions": "", "max-keys": "1000"}
+            if km: q["key-marker"] = km
+            if vm: q["version-id-marker"] = vm
+            lv = cl.req("GET", "/" + bk, query=q)
+            if lv.status != 200 or lv.xml() is None: break
+            listed += [x.findtext("VersionId") for x in lv.xml().findall("Version")]
+            if lv.xml().findtext("IsTruncated") != "true": break
+            km, vm = lv.xml().findtext("NextKeyMarker") or "", lv.xml().findtext("NextVersionIdMarker") or ""
+        want = [v for _, v in reversed(acks)]
+        same_ms = sum(1 for (_, a), (_, b) in zip(acks, acks[1:]) if a and b and a[:10] == b[:10])
+        chk.case(("burst", nburst), True); chk.traces += 1; chk.count("burst:same-millisecond-pairs:%d" % min(same_ms, 5))
+        if listed != want:
+            firstbad = next((i for i, (a, b) in enumerate(zip(listed, want)) if a != b), min(len(listed), len(want)))
+            chk.fail("c09:burst:listing-not-newest-first", "after %d acknowledged overwrites of one key (%d adjacent pairs within one millisecond) ListObjectVersions is not the acknowledgements in reverse: %d listed, first difference at position %d (listed %s, written %s)"
+                     % (len(acks), same_ms, len(listed), firstbad, listed[firstbad:firstbad + 2], want[firstbad:firstbad + 2]), {"acks": acks[-12:], "listed_head": listed[:12], "same_ms_pairs": same_ms})
+        else:
+            for step in range(1, 4):
+                i, v = acks[-step]
+                dv = cl.req("DELETE", "/%s/burst" % bk, query={"versionId": v}); gv = cl.req("GET", "/%s/burst" % bk)
+                if dv.status != 204 or gv.body != b"burst-write-%06d" % acks[-step - 1][0]:
+                    chk.fail("c09:burst:wrong-version-re-exposed", "deleting the newest version (write %d) by id answers %d and the key then reads %r; the write before it was %d"
+                             % (i, dv.status, gv.body[:30], acks[-step - 1][0]), {"acks": acks[-8:]})
+                    break
+        shutil.rmtree(os.path.join(site.root, bk), ignore_errors=True); shutil.rmtree(os.path.join(site.verdir, bk), ignore_errors=True)
         chk.tie("gateway still running", g.alive(), g.log_tail())
     if not built:
         return
@@ -351,6 +395,11 @@ def run(chk):
     for hi, ((ops, obs, txt), encs) in enumerate(zip(hists, res)):
         for i, (o, e) in enumerate(zip(obs, encs)):
             m = decode(e)
+            if o[0] == "listd" and m[0] == "list":
+                # with a delimiter: keys without it are listed as they are, the others collapse into their common prefix
+                flat = {k: v for k, v in m[1].items() if "/" not in KEYS[k]}
+                pref = tuple(sorted({KEYS[k].split("/")[0] + "/" for k, v in m[1].items() if "/" in KEYS[k] and (v[0] or v[1])}))
+                o, m = ("list", o[1], o[2]), ("list", flat, pref)
             if tuple(o) != tuple(m):
                 # the reference machine is the Spec: a disagreement is a concrete failing history
                 kind = ops[i].split(" ")[0]
